@@ -52,8 +52,9 @@ ASSUMPTIONS = [
     "values: it decodes to 0 and dump_as_parsed re-spells it with '+'; excluded from the "
     "reproduces-the-input clause only",
     "the local UTC offset enters as a parameter (timezone.get_local_time_zone patched)",
-    "a text ending in a newline is accepted like the text without it (Python's `$`); modelled, and "
-    "excluded from the reproduces-the-input clause",
+    "a text whose date, time or zone component ends in a newline is accepted like the text without it "
+    "(Python's `$`; each component is matched on its own); modelled, and excluded from the "
+    "reproduces-the-input clause (such a text is not a documented form)",
 ]
 
 # ---------------------------------------------------------------------------
@@ -322,6 +323,11 @@ def pick_decimals(rng, allow_long=True):
     elif r < 0.44:
         s = "".join(rng.choice("0123456789") for _ in range(max(n - 1, 1))) + "0"
         s = s[:n]
+    elif r < 0.62 and n >= 2:
+        # small fractions: a run of leading zeros (down to 0.000001 - where a float's repr switches
+        # to exponent form), then non-zero digits
+        k = rng.randint(1, n - 1)
+        s = "0" * k + rng.choice("123456789") + "".join(rng.choice("0123456789") for _ in range(n - k - 1))
     else:
         s = "".join(rng.choice("0123456789") for _ in range(n))
     return s
@@ -1042,7 +1048,7 @@ class Parse(Op):
                         what, dec(got_dump), dump)
             return None
         # unknown expectation: mutations, losers of a documented overlap
-        if got_point != "err" and as_parsed and not text.endswith("\n") and got_dump != "TIE":
+        if got_point != "err" and as_parsed and "\n" not in text and got_dump != "TIE":
             if got_dump.startswith(("err", "EXC")):
                 return "%s: str() of the dump_as_parsed result failed: %s" % (what, got_dump)
             if not same_up_to_decimals(dec(got_dump), text, cfg[0]):
@@ -1092,7 +1098,8 @@ def same_up_to_decimals(a, b, ned=0):
 
 def zero_sign_equal(a, b, ned=0, at_start=True):
     """a == b, except that a '-' of the input b in front of an all-zero year (at the very start, 4 + ned
-    zeros) or an all-zero offset (to the end of the text) may have become '+'."""
+    zeros; 2 + ned for the reduced form +-XCC) or an all-zero offset (to the end of the text) may have
+    become '+'."""
     if a == b:
         return True
     if len(a) != len(b):
@@ -1104,7 +1111,8 @@ def zero_sign_equal(a, b, ned=0, at_start=True):
             return False
         if i == 0 and at_start:
             width = 4 + ned
-            if b[1:1 + width] != "0" * width:
+            century_only = len(b) == 3 + ned and b[1:] == "0" * (2 + ned)     # the reduced form +-XCC
+            if b[1:1 + width] != "0" * width and not century_only:
                 return False
         else:
             rest = b[i + 1:]
